@@ -902,6 +902,10 @@ variant('b-parser-guard-waits-for-a-header', ['C04'], FP,
 variant('t-parser-guard-strict-form', ['C04', 'C12'], FP,
         "        while total >= frame_length_byte_count:",
         "        while total > frame_length_byte_count - 1:", kind='twin')
+variant('b-parser-ignored-frame-not-consumed', ['C04'], FP,
+        "                if new_frame is not None:\n                    yield new_frame\n",
+        "                if new_frame is None:\n                    total -= length + frame_length_byte_count\n                    continue\n                yield new_frame\n",
+        ('C04.a', 'one frame extent everywhere'))
 variant('t-parser-named-extent', ['C04', 'C12'], FP,
         """            if total < length + frame_length_byte_count:
                 return
